@@ -18,7 +18,7 @@ import (
 
 // drawFaultWorld draws a world with one catalogue fault applied.
 func drawFaultWorld(t *rapid.T, simple bool) (*gen.World, gen.Fault) {
-	f := rapid.SampledFrom(gen.Faults).Draw(t, "fault")
+	f := rapid.SampledFrom(append(append([]gen.Fault{}, gen.Faults...), gen.RelationOnlyFaults...)).Draw(t, "fault")
 	cfg := gen.WorldCfg{MaxAuth: 64, Simple: simple}
 	var w *gen.World
 	if f.NewPKI != nil {
@@ -132,6 +132,9 @@ func TestC12(t *testing.T) {
 		}
 		// catalogue expectation (soundness/completeness of the fault classes themselves)
 		for i, l := range levels {
+			if f.Unjudged {
+				break // the statement does not classify this world; only the relations above apply
+			}
 			if f.RejectedAt(l) && verdicts[i].Accepted() {
 				// Whether each fault class is noticed is the business of C01-C07; here it only
 				// tells how discriminating the generated verdict vectors are.
@@ -297,6 +300,58 @@ func TestC12(t *testing.T) {
 		gen.Class("time-shift:verdicts=" + vecs[0])
 		gen.Class(fmt.Sprintf("time-shift:root-distribution-points=%d", len(dps)))
 		gen.Sample("time-shift", map[string]any{"plan": plan, "verdicts": vecs[0], "pinned": []string{bases[0].Format("2006-01-02"), bases[1].Format("2006-01-02"), bases[2].Format("2006-01-02")}})
+	})
+
+	// (2c) what an options value downloaded in its previous call is not part of the next call's data: the same quote
+	// again, the PCS now serving the same document WITHOUT its signature (member absent, null, empty) - the verdict is that
+	// of fresh options
+	gen.Direct(t, "same-document-without-its-signature-after-a-good-download", func(t *testing.T) {
+		i := 0
+		for _, which := range []string{"tcbInfo", "enclaveIdentity"} {
+			for _, how := range []string{"absent", "null", "empty-string", "whole-body-is-the-member"} {
+				for _, l := range []gen.Level{gen.LvlColl, gen.LvlCRL} {
+					i++
+					if !gen.ShardOwns(i) {
+						continue
+					}
+					w := gen.NewWorld(gen.NewPKI(gen.PKISpec{Seed: gen.PKISeeds[i%len(gen.PKISeeds)]}), gen.NewStream(gen.Seed()+uint64(i), "c12nosig"))
+					w.HonestCollateral()
+					w.Build()
+					good := w.NewGetter()
+					bad := w.NewGetter()
+					u, doc := gen.TcbInfoURL(w.FmspcHex()), w.TcbInfo.Render()
+					if which == "enclaveIdentity" {
+						u, doc = gen.QeIdentityURL, w.QeID.Render()
+					}
+					r := bad.Resp[u]
+					switch how {
+					case "absent":
+						r.Body = []byte(`{"` + which + `":` + string(doc) + `}`)
+					case "null":
+						r.Body = []byte(`{"` + which + `":` + string(doc) + `,"signature":null}`)
+					case "empty-string":
+						r.Body = []byte(`{"` + which + `":` + string(doc) + `,"signature":""}`)
+					default:
+						r.Body = doc
+					}
+					bad.Resp[u] = r
+					shared := w.Options(l, good, nil)
+					gen.Eval()
+					v1 := gen.Call(func() error { return verify.RawTdxQuote(w.Raw, shared) })
+					shared.Getter = bad
+					v2 := gen.Call(func() error { return verify.RawTdxQuote(w.Raw, shared) })
+					bad2 := w.NewGetter()
+					bad2.Resp[u] = r
+					vf := gen.Call(func() error { return verify.RawTdxQuote(w.Raw, w.Options(l, bad2, nil)) })
+					if !sameOutcome(v2, vf) {
+						gen.Fail(t, gen.Violation{Key: "history-dependent-verdict:signature-" + how, Oracle: "re-using an options value that earlier verified other quotes gives the same verdict as a fresh one", Detail: fmt.Sprintf("level %s: first call with honest collateral %s; second call, the %s response now carries the same document with its signature %s: shared options %s, fresh options %s", l, v1.Short(), which, how, v2, vf), Replay: map[string]any{"kind": "c12-no-signature", "which": which, "how": how, "level": int(l)}})
+						return
+					}
+					gen.NonTrivial("c12nosig", which, how, int(l))
+				}
+			}
+		}
+		gen.Class("same-document-without-its-signature")
 	})
 
 	// (3) histories through one shared options value.
@@ -489,6 +544,13 @@ func TestC12(t *testing.T) {
 					gen.Fail(t, gen.Violation{Key: "history-dependent-verdict:nested-call-from-the-getter", Oracle: "the verdict depends only on the quote, the option settings and the fetched data",
 						Detail: fmt.Sprintf("after %d steps: shared=%s fresh=%s; history: %s", len(hist), vs, vf, strings.Join(hist, " ; ")), Replay: map[string]any{"kind": "history", "history": hist}})
 				}
+			},
+			// the caller copies its options value (a struct) and goes on with the copy, as callers that keep options in a
+			// configuration struct by value do
+			"go-on-with-a-copy-of-the-options-value": func(t *rapid.T) {
+				c := *shared
+				shared = &c
+				hist = append(hist, "options value copied by value")
 			},
 			"toggle-collateral": func(t *rapid.T) { cur.gc = !cur.gc; toggles++; hist = append(hist, "toggle gc") },
 			"toggle-revocation": func(t *rapid.T) { cur.cr = !cur.cr; toggles++; hist = append(hist, "toggle cr") },
